@@ -80,7 +80,10 @@ func (t *TargetsMetadata) AddRule(ruleName string, authorizedPrincipalIDs, ruleP
 		return tuf.ErrInvalidThreshold
 	}
 
-	if len(authorizedPrincipalIDs) < threshold {
+	// The threshold must be met by distinct principals: duplicates in the
+	// list count once.
+	principalIDs := set.NewSetFromItems(authorizedPrincipalIDs...)
+	if principalIDs.Len() < threshold {
 		return tuf.ErrCannotMeetThreshold
 	}
 
@@ -119,7 +122,10 @@ func (t *TargetsMetadata) UpdateRule(ruleName string, authorizedPrincipalIDs, ru
 		return tuf.ErrInvalidThreshold
 	}
 
-	if len(authorizedPrincipalIDs) < threshold {
+	// The threshold must be met by distinct principals: duplicates in the
+	// list count once.
+	principalIDs := set.NewSetFromItems(authorizedPrincipalIDs...)
+	if principalIDs.Len() < threshold {
 		return tuf.ErrCannotMeetThreshold
 	}
 
